@@ -1,5 +1,5 @@
-(* Executable model of _vnacal_new_add_common (vnacal_new_add_common.c) as coded (with the proposed
-   repair D48: b/m matrix bounds): argument checks in the order of the C code, the maps from the
+(* Executable model of _vnacal_new_add_common (vnacal_new_add_common.c) as coded (including the
+   repairs D48: b/m matrix bounds, D63: rectangular S only for T16/U16): argument checks in the order of the C code, the maps from the
    caller's B and S matrices to the cells of the full M and S matrices (port map, sorted port map for
    M, abbreviated matrices), the *_given[] flags, zero fill, the union-find connectivity closure, and
    the selection of the equations.  The m_is_diagonal branch (dead code: no entry point sets it,
@@ -120,6 +120,8 @@ Definition add_common (a : add_args) : outcome :=
   if andb (andb (zlt s_rows s_cols) (negb (Z.eqb s_rows zfull))) is_t then Rejected 3 else
   if andb (andb (zlt s_cols s_rows) (negb (Z.eqb s_cols zfull))) (negb is_t) then Rejected 4 else
   if andb (aa_s_diag a) (negb (Z.eqb s_rows s_cols)) then Aborts 1 else
+  (* D63: only T16 / U16 take a rectangular (partially known) S matrix *)
+  if andb (negb (Z.eqb s_rows s_cols)) (negb (is_16 ty)) then Rejected 17 else
   if andb (match aa_map a with None => true | Some _ => false end)
           (orb (negb (Z.eqb s_rows zfull)) (negb (Z.eqb s_cols zfull))) then Rejected 5 else
   if andb (negb (Z.eqb b_rows min_b_rows)) (negb (Z.eqb b_rows zfmr)) then Rejected 6 else
